@@ -77,7 +77,7 @@ def min_classes(tier):
 def oracle(line, impl_line):
     mode, a = parse_case(line)
     o = parse_out(impl_line)
-    if o is None or o[0] == [888888]:
+    if o is None or o[0] == [18446744073710440504]:
         return "crashed or panicked"
     if mode == "wg_run":
         # one row [ready, total wakes, live tokens after] per poll, until the first Ready
